@@ -7,7 +7,7 @@
 (* evaluated non-halting: each failure adds a record to viol, so one run   *)
 (* reports every violation of every property in every concatenated trace.  *)
 (***************************************************************************)
-EXTENDS ResObserver, CacheTrace, SubQueueTrace, ResQueueTrace, SubAccessTrace, ResSubTrace, SubReadyTrace, Json, SequencesExt
+EXTENDS ResObserver, CacheTrace, SubQueueTrace, ResQueueTrace, SubAccessTrace, ResSubTrace, SubReadyTrace, ConnQueueTrace, Json, SequencesExt
 
 Trace == ndJsonDeserialize("trace.ndjson")
 
@@ -27,7 +27,7 @@ NewClient(lg, v111, http) ==
 InitO(tr) ==
     [tr |-> tr, conns |-> <<>>, ann |-> <<>>, norm |-> <<>>, keyn |-> <<>>,
      mqsubs |-> {}, mqpend |-> <<>>, handed |-> <<>>, window |-> {},
-     refetch |-> <<>>, ctrig |-> <<>>, resets |-> <<>>, thr |-> <<>>, stop |-> [l |-> 0, cause |-> "", open |-> {}], down |-> FALSE, hadStop |-> FALSE, final |-> FALSE, resetObl |-> {}, keyq |-> <<>>, qev |-> <<>>, ce |-> <<>>, sq |-> <<>>, sr |-> <<>>, rq |-> <<>>, sa |-> <<>>, rst |-> <<>>, csub |-> <<>>, refRp |-> <<>>, deadRp |-> {}]
+     refetch |-> <<>>, ctrig |-> <<>>, resets |-> <<>>, thr |-> <<>>, stop |-> [l |-> 0, cause |-> "", open |-> {}], down |-> FALSE, hadStop |-> FALSE, final |-> FALSE, resetObl |-> {}, keyq |-> <<>>, qev |-> <<>>, ce |-> <<>>, sq |-> <<>>, sr |-> <<>>, srOf |-> <<>>, cq |-> <<>>, rq |-> <<>>, sa |-> <<>>, rst |-> <<>>, csub |-> <<>>, refRp |-> <<>>, deadRp |-> {}]
 
 Short(s) == IF Len(s) > 48 THEN SubSeq(s, 1, 24) \o "...(" \o ToString(Len(s)) \o " characters)" ELSE s
 
@@ -511,13 +511,23 @@ H_note3(r) ==
                    b.v \cup {V(e.p, "subscription " \o Short(r.rid) \o " of " \o r.c \o ": " \o e.m, "") : e \in st.errs})
        ELSE b
 
-(* C07 / C02: readiness of a subscription and of everything it refers to follows SubReadyOps (per connection) *)
-H_note(r) ==
+(* C07 / C02: readiness of a subscription and of everything it refers to follows SubReadyOps (per connection object ck; *)
+(* srOf: connection symbol -> its latest connection object)                                                            *)
+H_note4(r) ==
     LET b == H_note3(r)
-    IN IF r.kind \in SRTNotes /\ "sp" \in DOMAIN r /\ "c" \in DOMAIN r /\ ~o.hadStop /\ o.stop.l = 0
-       THEN LET st == SRTStep(Get(b.o.sr, r.c, SRTNew), r)
-            IN Res([b.o EXCEPT !.sr = Put(@, r.c, st.x)],
+    IN IF r.kind \in SRTNotes /\ "sp" \in DOMAIN r /\ "ck" \in DOMAIN r /\ ~o.hadStop /\ o.stop.l = 0
+       THEN LET st == SRTStep(Get(b.o.sr, r.ck, SRTNew), r)
+            IN Res([b.o EXCEPT !.sr = Put(@, r.ck, st.x), !.srOf = Put(@, r.c, MaxI(Get(@, r.c, 0), r.ck))],
                    b.v \cup {V(e.p, "subscription " \o Short(r.rid) \o " of " \o r.c \o ": " \o e.m, e.kf) : e \in st.errs})
+       ELSE b
+
+(* C11 / C15: the connection's work queue follows ConnQueue.tla (per connection object; also while the service stops) *)
+H_note(r) ==
+    LET b == H_note4(r)
+    IN IF r.kind \in CQTNotes /\ "ck" \in DOMAIN r
+       THEN LET st == CQTStep(Get(b.o.cq, r.ck, [x |-> CQTNew]).x, r)
+            IN Res([b.o EXCEPT !.cq = Put(@, r.ck, [x |-> st.x, c |-> r.c])],
+                   b.v \cup {V(e.p, "work queue of connection " \o r.c \o ": " \o e.m, "") : e \in st.errs})
        ELSE b
 
 -----------------------------------------------------------------------------
@@ -819,6 +829,9 @@ C11Viol(q) ==
     { V("C11", "closed connection " \o c \o " is still registered in the gateway", "")
       : c \in {x \in DOMAIN o.conns : o.conns[x].gone /\ x \in SeqToSet(q.conns)} }
 
+(* every connection's work queue has run out and its worker has left *)
+CQEndViol == UNION {{V(e.p, "work queue of connection " \o o.cq[k].c \o ": " \o e.m, "") : e \in CQTQuiescent(o.cq[k].x)} : k \in DOMAIN o.cq}
+
 StopPendingViol ==
     IF o.stop.l > 0 THEN {V("C20", "Stop did not complete within its bounded timeouts", "")} ELSE {}
 
@@ -833,7 +846,8 @@ H_quiescent(r) ==
            UNION {C01Viol(c, r) \cup C07Viol(c) \cup C08Viol(c, r) \cup C03EndViol(c, r) \cup C06EndViol(c, r) \cup C06TokViol(c, r) \cup C06TrigViol(c, r) : c \in live}
            \cup C09QViol(r) \cup C11Viol(r) \cup C19QViol
            \cup (IF o.hadStop THEN {} ELSE UNION {{V(e.p, "subscription " \o Short(o.sq[sp].rid) \o " of " \o o.sq[sp].c \o ": " \o e.m, "") : e \in SQTQuiescent(o.sq[sp].x)} : sp \in DOMAIN o.sq})
-           \cup (IF o.hadStop THEN {} ELSE UNION {{V(e.p, "connection " \o c \o ": " \o e.m, e.kf) : e \in SRTQuiescent(o.sr[c])} : c \in live \cap DOMAIN o.sr})
+           \cup (IF o.hadStop THEN {} ELSE UNION {{V(e.p, "connection " \o c \o ": " \o e.m, e.kf) : e \in SRTQuiescent(o.sr[o.srOf[c]])} : c \in live \cap DOMAIN o.srOf})
+           \cup CQEndViol
            \cup (IF o.hadStop THEN {} ELSE UNION {{V(e.p, "work queue of " \o Short(o.rq[ep].n) \o ": " \o e.m, "") : e \in RQQuiescent(o.rq[ep].x)} : ep \in DOMAIN o.rq})
            \cup (IF o.hadStop THEN {} ELSE UNION {{V(e.p, "cached resource " \o Short(o.rst[k].key) \o ": " \o e.m, "") : e \in RSTQuiescent(o.rst[k].x)} : k \in DOMAIN o.rst})
            \cup (IF o.hadStop THEN {}
@@ -846,9 +860,10 @@ H_quiescent(r) ==
            \cup {V("C12", "cached resource " \o x.key \o " matched a system reset but was never re-fetched", "") : x \in o.resetObl})
 
 H_final(r) ==
-    IF o.hadStop THEN Res([o EXCEPT !.final = TRUE], StopPendingViol)   \* cache and gauges are not cleaned by Stop; not judged
+    IF o.hadStop THEN Res([o EXCEPT !.final = TRUE], StopPendingViol \cup CQEndViol)   \* cache and gauges are not cleaned by Stop; not judged
     ELSE
     Res([o EXCEPT !.final = TRUE],
+        CQEndViol \cup
         (IF \E s \in SeqToSet(r.mqsubs) : s \notin {"system"}
          THEN {V("C09", "subscriptions left with no clients and nothing in flight: " \o ToString(r.mqsubs), "")} ELSE {})
         \cup (IF r.gres # 0 \/ r.gsubs # 0 THEN {V("C09", "cache gauges " \o ToString(<<r.gres, r.gsubs>>) \o " with no clients after the eviction delay", "")} ELSE {})
